@@ -226,6 +226,12 @@ def run(case):
             cc = (cc[0], cc[1] + "|weights-stored-in-other-order")
         else:
             W_fit, WY_fit = W, WY
+        if two and case["mseed"] % 3 == 0 and isinstance(Xc, xr.DataArray):
+            # weights for ONE field only, the other field living on the very same grid: the other field stays unweighted
+            Ys = (field(np.random.default_rng(case["mseed"] + 11), n, 3, 4, cplx, off=-0.5) + 0.4 * X0.values).rename(lat=latname)
+            Ys = Ys - Ys.mean("time")
+            Yc, Y2, WY_fit = Ys, Ys, None
+            cc = (cc[0], cc[1] + "|weights-for-one-field-same-grid")
         mA = fit((Xc, Yc) if two else Xc, _weights=(W_fit, WY_fit) if two else W_fit)
         mB = fit((X2, Y2) if two else X2)
         if mA is None or mB is None:
